@@ -122,7 +122,15 @@ def load():
 def idents(node):
     """every identifier (names, attribute names, keyword names, arg names) under node"""
     out = set()
+    skip = set()          # annotation subtrees are not code (type hints, names imported only for them)
     for n in ast.walk(node):
+        for a in ("annotation", "returns"):
+            x = getattr(n, a, None)
+            if isinstance(x, ast.AST):
+                skip.update(id(y) for y in ast.walk(x))
+    for n in ast.walk(node):
+        if id(n) in skip:
+            continue
         if isinstance(n, ast.Name):
             out.add(n.id)
         elif isinstance(n, ast.Attribute):
@@ -415,6 +423,18 @@ class Tr:
         self.nonnull = saved
         return seq(out)
 
+    def promote_local(self, recv):
+        """receiver of a mutating call / subscript store in log context: a log-only
+        location, or a plain local (not a parameter) which thereby becomes log-only --
+        the typing then rejects any protocol statement that reads it"""
+        fn, w = self.fn, self.w
+        if w.is_log_expr(fn, recv) or fn.all_log:
+            return True
+        if isinstance(recv, ast.Name) and recv.id in fn.locals_ and recv.id not in fn.params:
+            fn.log_locals.add(recv.id)
+            return True
+        return False
+
     def optional_use(self, node, target, what):
         """`target` (an expression) is dereferenced: a partial operation when it is an
         Optional-annotated name that may be None here"""
@@ -584,6 +604,8 @@ class Tr:
                 for n in ast.walk(t):
                     if isinstance(n, ast.Name) and isinstance(n.ctx, ast.Store):
                         fn.log_locals.add(n.id)
+                if isinstance(t, ast.Subscript):
+                    self.promote_local(t.value)          # data["k"] = v on a plain local
             pre = self.hi_expr(s.value)
             e = w.expr(fn, [s.value] + (targets if isinstance(s, ast.AugAssign) else []))
             return seq(pre + [("assign", l, e) for t in targets for l in self.target_locs(t)])
@@ -665,7 +687,7 @@ class Tr:
                     out.append(("logEvent", EVENT_IDS.get(ev, 0), w.expr(fn, node)))
                 elif cands:
                     out += [("call", g.qual) for g in cands]
-                elif m in LOG_MUTATORS and (w.is_log_expr(fn, f.value) or fn.all_log):
+                elif m in LOG_MUTATORS and self.promote_local(f.value):
                     out += [("assign", l, w.expr(fn, node)) for l in self.target_locs(f.value)]
                     if m == "remove":
                         out += self.partial(node, "list.remove", False, "ValueError when absent", node)
@@ -679,6 +701,9 @@ class Tr:
                     out += self.partial(node, "optional-attr", False, "tls.client_random is Optional[bytes]", node)
                 elif m in PURE_METHODS:
                     pass
+                elif dotted(f.value) == "self" and any(g in w.tainted and g.cls == fn.cls for g in w.by_name.get(m, [])):
+                    w.notes.append(f"{fn.qual}:{node.lineno}: protocol-context function {m} called in log context")
+                    out += [("call", g.qual) for g in w.by_name.get(m, []) if g in w.tainted and g.cls == fn.cls]
                 elif m == "get_log_data":
                     out += [("call", g.qual) for g in w.by_name.get(m, [])]
                 else:
@@ -835,8 +860,91 @@ def prepare(fn):
             fn.comp_iter[n.target.id] = n.iter.id
 
 
+def ir_walk(ir):
+    yield ir
+    k = ir[0]
+    if k == "seq":
+        for x in ir[1]:
+            yield from ir_walk(x)
+    elif k == "ite":
+        yield from ir_walk(ir[2])
+        yield from ir_walk(ir[3])
+    elif k == "loop":
+        yield from ir_walk(ir[2])
+    elif k == "try":
+        yield from ir_walk(ir[1])
+        yield from ir_walk(ir[3])
+
+
+def classify_helpers(w):
+    """A function outside logger.py is *log-only* when its whole body translates in
+    log context (guards, log calls, log-only helpers, pure reads, locals) and assigns
+    nothing but log-only locations: `_log_packet_sent(packet)` extracted from its
+    caller, with or without its own `is not None` guard.  Such a helper returns
+    nothing.  Anything else stays an ordinary function analysed statement by
+    statement (an unguarded logger use there is an error, a protocol write in a
+    helper called under a guard is an error)."""
+    changed = True
+    while changed:
+        changed = False
+        for f in w.fns:
+            if f.logonly or f not in w.tainted or f.file == LOG_FILE or f.name.startswith("__"):
+                continue
+            if not (idents(f.node) & LOG_NAMES) and not any(g.logonly for n in called_names(f.node) for g in w.by_name.get(n, [])):
+                continue
+            if any(isinstance(n, (ast.Yield, ast.YieldFrom, ast.Await, ast.FunctionDef, ast.Lambda, ast.ClassDef))
+                   or (isinstance(n, ast.Return) and n.value is not None and not (isinstance(n.value, ast.Constant) and n.value.value is None))
+                   for n in ast.walk(f.node) if n is not f.node):
+                continue
+            saved = (dict(w.loc_ids), w.expr_n, w.low_n, list(w.partial_ops), list(w.sink_ops), list(w.notes), set(f.log_locals))
+            f.logonly = True
+            ok = False
+            try:
+                prepare(f)
+                body = Tr(w, f).hi_block(f.node.body)
+                ok = all(x[1][0] == "L" for x in ir_walk(body) if x[0] == "assign") \
+                    and not any(x[0] in ("low", "abrupt") for x in ir_walk(body)) \
+                    and not any("protocol-context function" in n for n in w.notes[len(saved[5]):])
+            except Unsupported:
+                ok = False
+            w.loc_ids, w.expr_n, w.low_n = saved[0], saved[1], saved[2]
+            w.partial_ops, w.sink_ops, w.notes = saved[3], saved[4], saved[5]
+            if ok:
+                f.auto_logonly = True
+                changed = True
+            else:
+                f.logonly = False
+                f.log_locals = saved[6]
+    return sorted(f.qual for f in w.fns if getattr(f, "auto_logonly", False))
+
+
+def inline_helpers(w, prog, ir, depth=3):
+    """in the path-analysed functions a call of an automatically classified log-only
+    helper is replaced by the helper's body (a guarded log block at the call site)"""
+    k = ir[0]
+    if k == "call":
+        g = next((f for f in w.fns if f.qual == ir[1]), None)
+        if g is not None and getattr(g, "auto_logonly", False) and depth > 0 and ir[1] in prog:
+            return inline_helpers(w, prog, prog[ir[1]][1], depth - 1)
+        return ir
+    if k == "seq":
+        return seq([inline_helpers(w, prog, x, depth) for x in ir[1]])
+    if k == "ite":
+        return ("ite", ir[1], inline_helpers(w, prog, ir[2], depth), inline_helpers(w, prog, ir[3], depth))
+    if k == "loop":
+        return ("loop", ir[1], inline_helpers(w, prog, ir[2], depth))
+    if k == "try":
+        return ("try", inline_helpers(w, prog, ir[1], depth), ir[2], inline_helpers(w, prog, ir[3], depth))
+    return ir
+
+
 def translate(w):
     """returns {qual: (kind, body)} for every tainted function"""
+    w.loc_ids, w.expr_n, w.low_n = {}, 0, 0
+    w.partial_ops, w.sink_ops, w.notes = [], [], []
+    for f in w.fns:
+        f.locals_ = local_names(f.node)
+    w.auto_logonly = classify_helpers(w)
     # fixpoint on log locals (a local assigned in log context is log-only everywhere)
     for _ in range(6):
         before = {f.qual: set(f.log_locals) for f in w.fns}
@@ -851,6 +959,9 @@ def translate(w):
             body = tr.hi_block(f.node.body) if f.logonly else tr.block(f.node.body, False)
             prog[f.qual] = ("logOnly" if f.logonly else "normal", body)
         if all(before[f.qual] == f.log_locals for f in w.fns):
+            for q in PATH_FUNCS:
+                if q in prog:
+                    prog[q] = (prog[q][0], inline_helpers(w, prog, prog[q][1]))
             return prog
     raise Unsupported("log-local fixpoint did not converge")
 
@@ -1209,6 +1320,7 @@ def generate():
     L.append(f"   {len(quals)} functions, {len(w.loc_ids)} locations, {w.expr_n} expressions, {w.low_n} opaque statements")
     L.append("   trusted tables of the extractor:")
     L.append("   LOG_NAMES = " + ", ".join(sorted(LOG_NAMES)))
+    L.append("   log-only helpers classified automatically = " + ", ".join(w.auto_logonly))
     L.append("   LOGONLY_EXTRA = " + ", ".join(sorted(LOGONLY_EXTRA)) + "; SINKS = " + ", ".join(sorted(SINKS)))
     L.append("   PURE_CALLS = " + ", ".join(sorted(PURE_CALLS)) + "; PURE_METHODS = " + ", ".join(sorted(PURE_METHODS)))
     L.append("   LOG_MUTATORS = " + ", ".join(sorted(LOG_MUTATORS)))
@@ -1309,6 +1421,7 @@ def main():
         print("  non-JSON:", k)
     for n in w.notes:
         print("  note:", n)
+    print("  log-only helpers:", ", ".join(w.auto_logonly))
     return 0
 
 
